@@ -407,7 +407,7 @@ func init() {
 			{Name: "evidence-sequences", KQuick: -1, KThor: -1, Gen: c11GenSeq},
 			{Name: "evidence-sequences-up-to-7", KQuick: 2, KThor: 3, Gen: c11GenSeqLong},
 			{Name: "trees", KQuick: 3, KThor: 4, Gen: c11GenTree},
-			{Name: "through-coca-tbs", KQuick: 1, KThor: 2, Gen: cliTbsGen},
+			{Name: "through-coca-tbs", KQuick: 2, KThor: 3, Gen: cliTbsGen},
 		},
 	})
 }
